@@ -23,7 +23,12 @@ use case::*;
 use std::collections::{BTreeMap, HashSet};
 use std::io::Write;
 
+#[cfg(not(feature = "e3"))]
 pub fn sched_yield() {}
+#[cfg(feature = "e3")]
+pub fn sched_yield() {
+    shuttle::thread::yield_now();
+}
 
 fn arg<'a>(args: &'a [String], name: &str) -> Option<&'a str> {
     args.iter().position(|a| a == name).and_then(|i| args.get(i + 1)).map(|s| s.as_str())
@@ -31,6 +36,8 @@ fn arg<'a>(args: &'a [String], name: &str) -> Option<&'a str> {
 
 pub fn run_any(c: &Case) -> Option<RunOut> {
     let r = std::panic::catch_unwind(std::panic::AssertUnwindSafe(|| match c.engine.as_str() {
+        #[cfg(feature = "e3")]
+        "e3" => conc::run_conc(c),
         _ => e1::run_case(c),
     }));
     r.ok()
@@ -62,7 +69,24 @@ fn main() {
     }
 }
 
+/// Process-global lazily initialised state behind the scheduling seam (ingredient caches,
+/// EMPTY_CYCLE_HEADS, max_parallelism) makes the first execution in a process differ from later
+/// ones by a few scheduling points: every worker and every replay process first runs a fixed
+/// warm-up that touches every salsa item and a cycle.
+fn warm_up() {
+    #[cfg(feature = "e3")]
+    {
+        for p in ["C16", "C18", "C08", "C24", "C20"] {
+            for s in 0..3 {
+                let c = props::make_case(p, 0xABCD00 + s, props::Tier::Quick);
+                let _ = run_any(&c);
+            }
+        }
+    }
+}
+
 fn cmd_replay(args: &[String]) {
+    warm_up();
     let path = &args[2];
     let txt = std::fs::read_to_string(path).expect("read replay file");
     let c: Case = serde_json::from_str(&txt).expect("parse replay file");
@@ -111,18 +135,80 @@ fn cmd_run(args: &[String]) {
     let mut selfcheck_runs = 0u64;
     let mut harness_errors = vec![];
     let mut digest_all = 0u64;
+    warm_up();
+    let mut stop_after_sched_failure = false;
     for n in from..to {
+        if stop_after_sched_failure {
+            break;
+        }
         if t0.elapsed().as_secs_f64() > max_s {
             break;
         }
         let seed = base.wrapping_mul(1 << 20).wrapping_add(n);
         // attributable aborts: note the seed before running it
         let _ = std::fs::write(&cur_path, format!("{prop} {seed}\n"));
-        let c = props::make_case(prop, seed, tier);
-        if !c.prog.valid() {
+        let c0 = props::make_case(prop, seed, tier);
+        if !c0.prog.valid() {
             harness_errors.push(format!("seed {seed}: generator produced an invalid program"));
             continue;
         }
+        // fault enumeration: expand the base case into one case per injection point
+        let mut variants: Vec<Case> = vec![];
+        if prop == "C22" {
+            db::fault::RECORD.store(1, std::sync::atomic::Ordering::SeqCst);
+            let base = run_any(&c0);
+            db::fault::RECORD.store(0, std::sync::atomic::Ordering::SeqCst);
+            let kinds: Vec<prog::Cb> = db::fault::KINDS.lock().unwrap_or_else(|e| e.into_inner()).clone();
+            match base {
+                Some(b) if b.viol.is_empty() => {
+                    let mut r = rng::Rng::new(seed ^ 0xC22);
+                    let mut chosen: Vec<u64> = vec![];
+                    // every callback of the rare classes (capped), a sample of body ops
+                    for class in [prog::Cb::ValEq, prog::Cb::ValHash, prog::Cb::CycleFn, prog::Cb::CycleInitial, prog::Cb::Event] {
+                        let idx: Vec<u64> = kinds.iter().enumerate().filter(|(_, k)| **k == class).map(|(i, _)| i as u64).collect();
+                        let cap = 6;
+                        if idx.len() <= cap {
+                            chosen.extend(idx);
+                        } else {
+                            for _ in 0..cap {
+                                chosen.push(*r.pick(&idx));
+                            }
+                        }
+                    }
+                    let body: Vec<u64> = kinds.iter().enumerate().filter(|(_, k)| **k == prog::Cb::BodyOp).map(|(i, _)| i as u64).collect();
+                    let nb = if tier == props::Tier::Thorough { 24 } else { 12 };
+                    if body.len() <= nb {
+                        chosen.extend(body);
+                    } else {
+                        for _ in 0..nb {
+                            chosen.push(*r.pick(&body));
+                        }
+                    }
+                    chosen.sort();
+                    chosen.dedup();
+                    for k in chosen {
+                        let mut c = c0.clone();
+                        c.panic_at = Some(k);
+                        c.class = format!("{}:{:?}", c.class, kinds[k as usize]);
+                        variants.push(c);
+                    }
+                    *stats.entry("base_histories".into()).or_insert(0) += 1;
+                    *stats.entry("callbacks_in_base_histories".into()).or_insert(0) += kinds.len() as u64;
+                }
+                Some(b) => {
+                    // the fault-free base run itself shows a violation: report it as is
+                    let _ = b;
+                    variants.push(c0.clone());
+                }
+                None => {
+                    harness_errors.push(format!("seed {seed}: harness panic in base run"));
+                    continue;
+                }
+            }
+        } else {
+            variants.push(c0);
+        }
+        for c in variants {
         let Some(o) = run_any(&c) else {
             harness_errors.push(format!("seed {seed}: harness panic"));
             continue;
@@ -144,6 +230,11 @@ fn cmd_run(args: &[String]) {
             c.prog.hash(&mut hh);
             c.hist.hash(&mut hh);
             c.panic_at.hash(&mut hh);
+            if let Some(cc) = &c.conc {
+                // concurrent runs: a case is (program, rounds, recorded schedule)
+                cc.rounds.hash(&mut hh);
+                o.choices.hash(&mut hh);
+            }
             hh.finish()
         };
         hashes.insert(h);
@@ -179,17 +270,26 @@ fn cmd_run(args: &[String]) {
             let small = shrink::shrink(&c, &classes, &run_any, 3000);
             let mut small = small;
             let o2 = run_any(&small).unwrap();
+            if let Some(cc) = small.conc.as_mut() {
+                // the replay file carries the recorded schedule
+                cc.choices = o2.choices.clone();
+                if o2.classes().iter().any(|c| c == "deadlock" || c == "livelock") {
+                    stop_after_sched_failure = true;
+                }
+            }
             small.expect = o2.classes().into_iter().filter(|x| classes.contains(x)).collect();
             let dir = format!("{out_dir}/replays");
             std::fs::create_dir_all(&dir).unwrap();
-            let path = format!("{dir}/{prop}-{seed}.json");
+            let tag = c.panic_at.map(|k| format!("-k{k}")).unwrap_or_default();
+            let path = format!("{dir}/{prop}-{seed}{tag}.json");
             std::fs::write(&path, serde_json::to_string_pretty(&small).unwrap()).unwrap();
-            let full = format!("{dir}/{prop}-{seed}.full.json");
+            let full = format!("{dir}/{prop}-{seed}{tag}.full.json");
             std::fs::write(&full, serde_json::to_string_pretty(&c).unwrap()).unwrap();
             violations.push(serde_json::json!({"seed": seed, "classes": small.expect, "replay": path, "detail": o2.viol.first().map(|v| v.detail.clone()), "signature": signature(&small, &o2)}));
-            if violations.len() >= 5 {
-                break;
-            }
+        }
+        }
+        if violations.len() >= 5 {
+            break;
         }
     }
     let _ = std::fs::remove_file(&cur_path);
